@@ -132,6 +132,7 @@ def run_history(ast, packages, ops):
         results = []
         history_outcomes = []
         d9_reported = False
+        shared_loader = [None]
         for k, op in enumerate(ops):
             if op["op"] == "mutate":
                 for r in results:
@@ -145,6 +146,28 @@ def run_history(ast, packages, ops):
                 got_fresh = loadcheck.real_load(fresh, op["text"], url=MAIN, overrides=ov)
                 a, f = outcome(got_aged), outcome(got_fresh)
                 history_outcomes.append(a)
+                # the same load through a loader object that has served earlier loads
+                if ov:
+                    from ZConfig import cmdline
+                    ld = cmdline.ExtendedConfigLoader(aged)
+                    for o in ov:
+                        try:
+                            ld.addOption(o)
+                        except ZConfig.ConfigurationError:
+                            ld = None
+                            break
+                    seq = [ld, ld] if ld is not None else []
+                else:
+                    if shared_loader[0] is None:
+                        import ZConfig.loader
+                        shared_loader[0] = ZConfig.loader.ConfigLoader(aged)
+                    seq = [shared_loader[0]]
+                for ld in seq:
+                    r = outcome(loadcheck.real_load_with(ld, op["text"], MAIN))
+                    if r[0] != f[0] or (r[0] == "ok" and digest.first_diff(f[1], r[1])):
+                        out.append(("reused-loader-differs-from-fresh:%s-vs-%s" % (r[0], f[0]),
+                                    "step %d%s %r" % (k, " (overrides)" if ov else "", op.get("text", "")[:200])))
+                        break
                 stats["load:" + a[0]] += 1
                 if got_aged[0] == "ok":
                     results.append(got_aged[1])
